@@ -141,7 +141,7 @@ double realPrecision, float valueRangeSize, float medianValue_f)
 		curData = spaceFillingValue[i];
 		pred = preStepData[i];
 		predAbsErr = fabs(curData - pred);
-		if(predAbsErr<=checkRadius)
+		if(predAbsErr<checkRadius) //strictly: at equality the code would be 0 (the unpredictable marker) or intvCapacity (outside the code table)
 		{
 			state = (predAbsErr/realPrecision+1)/2;
 			if(curData>=pred)
